@@ -162,8 +162,9 @@ func runC35(c *core.Ctx) {
 		}
 		var delChain []ir.Sink
 		for _, s := range sites {
-			if s.Op == "Delete" && s.Shape.LeadingLit() == "sideChain" && s.Depth == 0 {
-				delChain = append(delChain, ir.Sink{Instr: s.Call, Note: "delete SIDE_CHAIN record"})
+			if s.Op == "Delete" && s.Shape.LeadingLit() == "sideChain" {
+				// directly, or through a helper: the sink is the call in this function that leads to the delete
+				delChain = append(delChain, ir.Sink{Instr: s.TopCall, Note: "delete SIDE_CHAIN record"})
 				okID := false
 				for _, a := range s.Shape {
 					if a.Kind == eng.AFix && a.N == 8 && a.Val != nil && isFieldNamed(a.Val, "Chainid") {
@@ -194,7 +195,7 @@ func runC35(c *core.Ctx) {
 		}
 		gs, _ := eng.KeySitesIn(c.P, g, 1)
 		ps, _ := eng.KeySitesIn(c.P, p, 1)
-		as, _ := eng.KeySitesIn(c.P, a, 0)
+		as, _ := eng.KeySitesIn(c.P, a, 2)
 		var gShape, pShape string
 		for _, s := range gs {
 			if s.Op == "Get" {
@@ -271,11 +272,12 @@ func checkRequestLiteral(c *core.Ctx, fn *ssa.Function, put interface{}, vo inte
 		if o == nil || (o.Name() != "putSideChainApply" && o.Name() != "putUpdateSideChain") {
 			continue
 		}
-		al, ok := ir.Strip(ci.Common().Args[1]).(*ssa.Alloc)
-		if !ok {
-			c.Broken("C35.request-content", fn, "request literal", c.P.Rel(ci.Pos()), "argument is not a local literal")
+		al, release := literalOf(ci.Common().Args[1])
+		if al == nil {
+			c.Broken("C35.request-content", fn, "request literal", c.P.Rel(ci.Pos()), "argument is not a local literal (nor built by a helper)")
 			continue
 		}
+		defer release()
 		got := map[string]ssa.Value{}
 		for _, ref := range *al.Referrers() {
 			if fa, ok := ref.(*ssa.FieldAddr); ok {
